@@ -472,6 +472,70 @@ func ceMain(args []string) {
 			}
 		}
 	}
+	// the same document again after the signer was rotated: the signature is the NEW signer's result for the
+	// serialized bytes (and a signer that has started to fail is not bypassed)
+	for r := 0; r < 12; r++ {
+		src, _ := url.Parse("https://verif.example/rot")
+		format := cloudevents.FormatJSON
+		key := string(cloudevents.FormatJSON)
+		if r%2 == 1 {
+			format, key = cloudevents.FormatText, string(cloudevents.FormatText)
+		}
+		mkSigner := func(tag string) cloudevents.Signer {
+			return func(ctx context.Context, b []byte) (string, error) {
+				if tag == "fail" {
+					return "", errors.New("signer unavailable")
+				}
+				sum := 0
+				for _, x := range b {
+					sum += int(x)
+				}
+				return fmt.Sprintf("%s-%d-%d", tag, sum, len(b)), nil
+			}
+		}
+		ff := &cloudevents.FormatterFilter{Source: src, Format: format, Signer: mkSigner("old"), SignEventTypes: []string{"t"}}
+		mk := func() *eventlogger.Event {
+			return &eventlogger.Event{Type: "t", CreatedAt: time.Unix(1700000000, 0).UTC(), Formatted: map[string][]byte{}, Payload: &ceID{V: map[string]interface{}{"k": r}, id: "same-id"}}
+		}
+		sigOf := func(e *eventlogger.Event) (string, []byte) {
+			b, _ := e.Format(key)
+			var doc map[string]json.RawMessage
+			json.Unmarshal(b, &doc)
+			var ser, mac string
+			json.Unmarshal(doc["serialized"], &ser)
+			json.Unmarshal(doc["serialized_hmac"], &mac)
+			u, _ := base64.RawURLEncoding.DecodeString(ser)
+			return mac, u
+		}
+		e1 := mk()
+		if _, err := ff.Process(ctx, e1); err != nil {
+			continue
+		}
+		next := "new"
+		if r%3 == 2 {
+			next = "fail"
+		}
+		ff.Rotate(mkSigner(next))
+		e2 := mk()
+		got2, err2 := ff.Process(ctx, e2)
+		st.Ops += 2
+		st.hit("rotate-then-same-document")
+		if next == "fail" {
+			if err2 == nil || got2 != nil {
+				oracle("C18 after Rotate to a signer that fails, an event whose document equals the last one signed was forwarded (err=%v): a failing signer means an error and nothing forwarded", err2)
+			}
+			continue
+		}
+		if err2 != nil {
+			oracle("C18 Process after Rotate failed: %v", err2)
+			continue
+		}
+		mac, u := sigOf(e2)
+		want, _ := mkSigner("new")(ctx, u)
+		if mac != want {
+			oracle("C18 after Rotate(new signer) an event whose unsigned document equals the last one signed before the rotation carries serialized_hmac %q; the signer in force gives %q for the serialized bytes", mac, want)
+		}
+	}
 	// generated ids are fresh and unique, also when several pipelines (or several Sends) format at once
 	{
 		src, _ := url.Parse("https://verif.example/ids")
